@@ -24,13 +24,13 @@ Proof. exact counted_feed. Qed.
 
 (* after a successful decode of an encoding the count is the encoded length *)
 Theorem C19_count_is_encoded_length : forall t v bs known rest,
-  nobits t = true -> wf_ty t = true -> wf t v = true -> enc_spec t v = EOk bs ->
+  wf_ty t = true -> wf t v = true -> enc_spec t v = EOk bs ->
   N.of_nat (length bs) <= u64max ->
   exists v', run counted (dec t) known (bs ++ rest) 0 = ROk v' rest (N.of_nat (length bs)).
 Proof.
-  intros t v bs known rest Hb Ht Hw He Hl.
+  intros t v bs known rest Ht Hw He Hl.
   pose proof (counted_exact val (dec t) known (bs ++ rest)) as H.
-  rewrite (roundtrip t v bs known rest Hb Ht Hw He) in H.
+  rewrite (roundtrip t v bs known rest Ht Hw He) in H.
   destruct (run counted (dec t) known (bs ++ rest) 0) as [v' r c|c| |]; try contradiction.
   destruct H as (-> & -> & ->). exists (canon t v). f_equal. rewrite app_length. lia.
 Qed.
